@@ -86,7 +86,8 @@ def run(ctx):
       'a worker-pool stage (workers 1-2, buffer 0/1/2, num_workers cap) under '
       'the default schedule; 5 configurations with every placement of one pause '
       'of the orchestrating loop (slow orchestrator, pause until quiescence, once '
-      'per executed line); the smallest instance of each driver under delay '
+      'per executed line); 5 configurations with every placement of one late '
+      'reply; the smallest instance of each driver under delay '
       f'bound {1 if ctx.quick else 2}; merge_states strict count for all '
       '(m, n) in 0..4 x 1..5 on both runner kinds. distinct = distinct configuration '
       '(x schedule).')
@@ -111,6 +112,21 @@ def run(ctx):
   explorer.explore_all(ctx, MODULE, paused, pre_bound=-1,
                        dev_bound=1 if ctx.quick else 2, split=16)
   ctx.notes['slow_orchestrator_configurations'] = len(paused)
+  # replies may arrive late (not a fault: the reply is delivered, but only
+  # after everybody else has run as far as possible): every placement of one
+  # slow reply over the RPCs of a run
+  slow = [('interleaved', dict(total=4, batch=2, pool=True, W=2,
+                               menu=['slow-reply'])),
+          ('interleaved', dict(total=6, batch=2, pool=True, W=2, buf=1,
+                               fuse=False, menu=['slow-reply'])),
+          ('interleaved', dict(total=3, batch=2, pool=True, W=1,
+                               menu=['slow-reply'])),
+          ('sharded', dict(W=2, S=2, total=5, batch=2, menu=['slow-reply'])),
+          ('sharded', dict(W=2, S=3, total=6, batch=2, ibs=2,
+                           menu=['slow-reply']))]
+  explorer.explore_all(ctx, MODULE, slow, pre_bound=-1,
+                       dev_bound=1 if ctx.quick else 2, split=8)
+  ctx.notes['slow_reply_configurations'] = len(slow)
   ctx.pmap(_strict_count_unit, [0])
   ctx.notes['configurations'] = len(sh) + len(il)
   ctx.sample({'harness': 'sharded', 'params': sh[5][1]})
